@@ -55,6 +55,7 @@ fn acts(n: &Node, jump_to: u64) -> Vec<Action> {
         }
         v.push(Action::Batch { label: "[faucet-a , faucet-a/other-sigs]".into(), txs: vec![fs[0].1.clone(), fs[4].1.clone()], expect_ok: false });
         v.push(Action::Batch { label: "[faucet-grandfathered/other-sigs , faucet-grandfathered]".into(), txs: vec![fs[5].1.clone(), fs[3].1.clone()], expect_ok: false });
+        v.push(Action::Batch { label: "[faucet-grandfathered , faucet-a]".into(), txs: vec![fs[3].1.clone(), fs[0].1.clone()], expect_ok: false });
         v.push(Action::Batch { label: "[faucet-a , faucet-b]".into(), txs: vec![fs[0].1.clone(), fs[1].1.clone()], expect_ok: false });
         v.push(Action::Batch { label: "[faucet-b , faucet-grandfathered , faucet-a]".into(), txs: vec![fs[1].1.clone(), fs[3].1.clone(), fs[0].1.clone()], expect_ok: false });
     }
@@ -80,6 +81,32 @@ pub fn run(run: &Run) {
         let st = bfs(&eng, vec![rootn], depth, 1_000_000, &a, &visit);
         run.set(&format!("scenario:{:?}", net), json!({"depth_bound_completed": st.depth_completed, "unique_states": st.states, "transitions": st.transitions}));
         println!("  network {:?}: depth {} states {} transitions {}", net, st.depth_completed, st.states, st.transitions);
+    }
+    // testnet: a faucet applied before the TIP-906 activation height is still a duplicate after the chain has crossed it
+    {
+        let (_w, rootn) = root(NetID::Testnet, 0, false);
+        let eng = Engine::new(run);
+        let fs = faucets();
+        let mut pre: Vec<Action> = vec![Action::Open];
+        pre.push(Action::Batch { label: "[faucet-a , faucet-b]".into(), txs: vec![fs[0].1.clone(), fs[1].1.clone()], expect_ok: true });
+        pre.extend([Action::Seal(None), Action::Jump(498), Action::Open, Action::Seal(None), Action::Open, Action::Seal(None)]);
+        let mut node = Some(rootn);
+        for a in &pre {
+            node = match node.as_ref().map(|n| eng.step(n, a)) {
+                Some(StepOut::Next(x)) => Some(x),
+                _ => None,
+            };
+        }
+        match node {
+            Some(n) => {
+                let a = move |n: &Node| acts(n, 0);
+                let visit = |_n: &Node| {};
+                let st = bfs(&eng, vec![n], if thorough { 6 } else { 4 }, 500_000, &a, &visit);
+                run.set("scenario:Testnet-across-activation-500", json!({"depth_bound_completed": st.depth_completed, "unique_states": st.states, "transitions": st.transitions}));
+                println!("  testnet across 500: depth {} states {} transitions {}", st.depth_completed, st.states, st.transitions);
+            }
+            None => run.outcome("testnet-across-activation:prefix-not-accepted"),
+        }
     }
     let _ = AlphaCfg::base();
     run.set("faucet_shapes", json!(faucets().iter().map(|f| f.0.clone()).collect::<Vec<_>>()));
